@@ -152,9 +152,11 @@ def check_text(w, b, text, fmt, expected, what, oracle='rt_text_content'):
 def do_roundtrip(w, s):
     g, fmt, entry, cross, new = s['g'], s['fmt'], s['entry'], s['cross'], s['new']
     m = w.model
+    direct = entry.endswith('direct')
+    if s.get('saved'):
+        return do_load_saved(w, s)
     if not m.gnodes(g):
         raise SkipStep()
-    direct = entry.endswith('direct')
     if not direct and m.gnodes(new):
         raise SkipStep()      # the target id must hold nothing (re-import onto a live graph is C04/C05's business)
     # C01 is stated for string/int property values; a 'combine' merge leaves a list behind
@@ -238,6 +240,12 @@ def do_roundtrip(w, s):
                 w.real_call(b, lambda bb: w.imp[bb].delete_graph(graph_id=new))
         w.stats.inc('probe.roundtrip.import_failed')
         return {tgt_id}, 'import_failed'
+    if direct:
+        if not hasattr(w, 'saved'):
+            w.saved = {}
+        w.saved[g] = {'fmt': fmt, 'texts': dict(texts), 'content': expected_src,
+                      'nodes': {k: dict(m.nodes[k]) for k in m.gnodes(g)},
+                      'edges': {ek: dict(p) for ek, p in m.edges.items() if all(x[0] == g for x in ek)}}
     if not direct:
         m.clone_graph(g, new)
     else:
@@ -247,3 +255,44 @@ def do_roundtrip(w, s):
     w.mutations += 1
     w.stats.inc('probe.roundtrip.%s.%s.%s' % (fmt, entry, 'cross' if cross else 'same'))
     return {tgt_id}, 'ok'
+
+
+def do_load_saved(w, s):
+    """The text a graph was serialized to by an earlier step is loaded again under its own id after the graph was
+    edited (or deleted) in between: the stored graph is then exactly the saved one, in both stores."""
+    g, fmt, entry, cross = s['g'], s['fmt'], s['entry'], s['cross']
+    sv = getattr(w, 'saved', {}).get(g)
+    if sv is None or sv['fmt'] != fmt or not entry.endswith('direct'):
+        raise SkipStep()
+    m = w.model
+    w.touch(g)
+    expected = sv['content']
+    changed = canon(model_content(m, g)) != canon(expected)
+    raised = False
+    for b in ('shared', 'disjoint'):
+        src = ('disjoint' if b == 'shared' else 'shared') if cross else b
+        out = w.real_call(b, lambda bb: w.import_call(bb, entry, sv['texts'][src], g))
+        if out[0] != 'ok':
+            raised = True
+            w.flag('C01', 'rt_import', {'store': b, 'fmt': fmt, 'entry': entry, 'got': str(out[1])[:40], 'saved': True},
+                   'loading the saved %s text of %s through %s into the %s store failed: %s' % (fmt, g, entry, b, out))
+            continue
+        st = w.real_state(b)
+        got_n, got_e = w.project(st, g)
+        got = {'nodes': {k.split('|', 1)[1]: v for k, v in got_n.items()},
+               'edges': {'~'.join(sorted(p.split('|', 1)[1] for p in k.split('~'))): v for k, v in got_e.items()}}
+        if canon(got) != canon(expected):
+            w.flag('C01', 'rt_state_equal', {'store': b, 'fmt': fmt, 'entry': entry, 'symptom': 'content', 'saved': True},
+                   'graph %s loaded again from the %s text saved earlier (%s, %s store; the graph %s since) differs from '
+                   'what was saved: %s' % (g, fmt, entry, b, 'was edited' if changed else 'is unchanged',
+                                           content_diff(got, expected, 'loaded', 'saved')))
+    if raised:
+        return {g}, 'import_failed'
+    m.delete_graph(g)
+    for k, p in sv['nodes'].items():
+        m.nodes[k] = dict(p)
+    for ek, p in sv['edges'].items():
+        m.edges[ek] = dict(p)
+    w.mutations += 1
+    w.stats.inc('probe.roundtrip.saved.%s.%s' % (entry, 'edited' if changed else 'unchanged'))
+    return {g}, 'ok'
